@@ -604,10 +604,10 @@ Proof.
   repeat split; try assumption; eauto. exists tn, tsd, fdP, fdI, tI. repeat split; assumption.
 Qed.
 
-Lemma inline_roundtrip T sd tgt hidden pathf inlf vs w ws tn tsd f0 f0' sub zs v' :
+Lemma inline_roundtrip T sd tgt hidden pathf inlf vs w ws tn tsd f0 f0' g sub zs v' :
   hook_ok T sd = true -> hook_compiled T sd = CInline tgt hidden pathf inlf ->
   List.length vs = List.length (s_fields sd) ->
-  zs = map (fun fd => zero_val T f0' (f_ty fd)) (s_fields sd) ->
+  zs = map (fun fd => zero_val T g (f_ty fd)) (s_fields sd) ->
   inline_out tgt hidden pathf inlf (VStruct vs) = Some w -> inline_side tgt pathf (VStruct vs) ->
   field_ty sd tgt = TNamed tn -> find_struct T tn = Some tsd ->
   w = VStruct ws -> List.length (s_fields tsd) = List.length ws -> WF T (TNamed tn) w ->
@@ -655,7 +655,7 @@ Proof.
   { cbn. rewrite HsPi, HcP. reflexivity. }
   assert (Hzh : iget [hidden] (VStruct zs) = Some VNil).
   { cbn. subst zs. rewrite nth_error_map. destruct (nth_error (s_fields sd) hidden) as [fh|] eqn:Efh.
-    - cbn. unfold field_ty in Hth. rewrite Efh in Hth. rewrite Hth. reflexivity.
+    - cbn. unfold field_ty in Hth. rewrite Efh in Hth. rewrite Hth, zero_slice. reflexivity.
     - exfalso. apply nth_error_None in Efh. lia. }
   destruct HwIshape as [->|[r [es ->]]].
   - (* nothing inline *)
@@ -782,4 +782,310 @@ Proof.
     rewrite iget_iset1_other by (intros E; apply Hta; symmetry; exact E). exact Hv0t. }
   rewrite (iget_iset_below tgt addrcfg _ _ (VStruct ss) Ht'). f_equal.
   apply iset_noop. cbn. rewrite HsAi. reflexivity.
+Qed.
+
+(* ================================================================================================ *)
+(* E. the theorem                                                                                    *)
+(* ================================================================================================ *)
+Lemma ty_ok_ptr T t : ty_ok T (TPtr t) = true -> ty_ok T t = true /\ ptr_ok (TPtr t) = true /\ ptr_hook_ok T (TPtr t) = true.
+Proof.
+  unfold ty_ok. intros H. apply andb_true_iff in H. destruct H as [H1 H2]. cbn [ty_ptr_ok] in H1.
+  apply andb_true_iff in H1. destruct H1 as [H1a H1b]. repeat split; try assumption.
+  rewrite H1b. cbn [andb]. destruct t; try exact H2; reflexivity.
+Qed.
+Lemma ty_ok_elem T t : ty_ok T (TSlice t) = true \/ ty_ok T (TMap t) = true -> ty_ok T t = true.
+Proof. unfold ty_ok. intros [H|H]; exact H. Qed.
+
+Lemma WF_plain_inv T tn tsd w : find_struct T tn = Some tsd -> plain_struct tsd = true -> WF T (TNamed tn) w ->
+  exists ws, w = VStruct ws /\ List.length (s_fields tsd) = List.length ws /\ Forall2 (fun fd x => WF T (f_ty fd) x) (s_fields tsd) ws.
+Proof.
+  intros Hf Hp Hw. inversion Hw as [t v Hsh Hwf| | | |n sd vs Hfs Hp' Hfl|n sd vs t2 w2 Hfs Hout _ _ _ _|n sd j Hfs Hc Hj]; subst.
+  - destruct w; cbn in Hwf; try discriminate; try contradiction.
+  - rewrite Hf in Hfs. inversion Hfs; subst. exists vs. split; [reflexivity|]. split; [eapply Forall2_length; eauto|exact Hfl].
+  - exfalso. rewrite Hf in Hfs. inversion Hfs; subst. rewrite (hooked_not_plain T sd _ Hp) in Hout. discriminate.
+  - exfalso. rewrite Hf in Hfs. inversion Hfs; subst. rewrite (plain_compiled T sd Hp) in Hc. discriminate.
+Qed.
+
+Lemma iset_struct i p x vs : exists vs', iset (i :: p) x (VStruct vs) = VStruct vs'.
+Proof. cbn. destruct (nth_error vs i); eauto. Qed.
+
+Lemma field_ty_in sd X : X < List.length (s_fields sd) -> exists fd, In fd (s_fields sd) /\ f_ty fd = field_ty sd X.
+Proof.
+  intros H. unfold field_ty. destruct (nth_error (s_fields sd) X) as [fd|] eqn:E.
+  - exists fd. split; [eapply nth_error_In; eauto|reflexivity].
+  - apply nth_error_None in E. lia.
+Qed.
+
+Lemma fuel_free_arr l : fuel_free (JArr l) = true <-> Forall (fun x => fuel_free x = true) l.
+Proof.
+  cbn. induction l as [|x l IH]; split; intros H; try constructor; try reflexivity.
+  - apply andb_true_iff in H. tauto.
+  - apply IH. apply andb_true_iff in H. tauto.
+  - inversion H; subst. apply andb_true_iff. split; [assumption|apply IH; assumption].
+Qed.
+Lemma fuel_free_obj l : fuel_free (JObj l) = true <-> Forall (fun kv : string * json => fuel_free (snd kv) = true) l.
+Proof.
+  cbn. induction l as [|[k x] l IH]; split; intros H; try constructor; try reflexivity.
+  - apply andb_true_iff in H. cbn. tauto.
+  - apply IH. apply andb_true_iff in H. tauto.
+  - inversion H; subst. apply andb_true_iff. split; [assumption|apply IH; assumption].
+Qed.
+
+Lemma list_rt_aux (P : val -> Prop) (enc : val -> json) (dec : json -> option val) :
+  (forall x y, P x -> fuel_free (enc x) = true -> dec (enc x) = Some y -> enc y = enc x) ->
+  forall (es : list (string * val)) xs,
+    Forall (fun kv => P (snd kv)) es -> Forall (fun kv => fuel_free (enc (snd kv)) = true) es ->
+    Forall2 (fun kv y => dec (enc (snd kv)) = Some y) es xs ->
+    map enc xs = map (fun kv => enc (snd kv)) es.
+Proof.
+  intros Hrt. induction es as [|[k x] es IH]; intros xs HP Hf H2; inversion H2; subst; [reflexivity|].
+  inversion HP; subst. inversion Hf; subst. cbn [map snd]. f_equal; [eapply Hrt; eauto|apply IH; assumption].
+Qed.
+
+Lemma iset2_struct i x j y vs : exists vs', iset [i] x (iset [j] y (VStruct vs)) = VStruct vs'.
+Proof. destruct (iset_struct j [] y vs) as [vs1 E1]. rewrite E1. apply iset_struct. Qed.
+
+Lemma chain_in_struct tgt ctxs single set zctx zs sub v' :
+  chain_in tgt ctxs single set zctx (VStruct zs) sub = Some v' -> exists vs', v' = VStruct vs'.
+Proof.
+  unfold chain_in. intros H.
+  assert (G : forall c, exists vs', iset [ctxs] c (iset [tgt] sub (VStruct zs)) = VStruct vs') by (intros c; apply iset2_struct).
+  destruct (iget [set] sub) as [s|].
+  - destruct s; try (destruct (iget [single] sub) as [[]|]; try destruct es; try destruct p; try destruct es;
+                     injection H as <-; apply G).
+    destruct es as [|e es].
+    + destruct (iget [single] sub) as [[]|]; try destruct es; try destruct p; try destruct es; injection H as <-; apply G.
+    + destruct (iget [single] sub) as [[]|]; try discriminate H; injection H as <-; apply G.
+  - destruct (iget [single] sub) as [[]|]; try destruct es; try destruct p; try destruct es; injection H as <-; apply G.
+Qed.
+
+Lemma inline_in_struct tgt hidden pathf inlf zs sub v' :
+  inline_in tgt hidden pathf inlf (VStruct zs) sub = Some v' -> exists vs', v' = VStruct vs'.
+Proof.
+  unfold inline_in. intros H.
+  assert (G1 : exists vs', iset [tgt] sub (VStruct zs) = VStruct vs') by apply iset_struct.
+  assert (G2 : forall c, exists vs', iset [hidden] c (iset [tgt] sub (VStruct zs)) = VStruct vs') by (intros c; apply iset2_struct).
+  destruct (iget [pathf] sub) as [[]|]; try discriminate H. destruct s; try discriminate H.
+  destruct (iget [inlf] sub) as [[]|]; try destruct es; injection H as <-; first [apply G1 | apply G2].
+Qed.
+
+Lemma listener_in_struct tgt addr addrcfg network perconn zs sub v' :
+  listener_in tgt addr addrcfg network perconn (VStruct zs) sub = Some v' -> exists vs', v' = VStruct vs'.
+Proof.
+  unfold listener_in. intros H.
+  destruct (iget [addrcfg] sub) as [[]|]; try discriminate H. destruct (iget [network] sub) as [[]|]; try discriminate H.
+  destruct (String.eqb s ""); [discriminate H|].
+  match type of H with (if ?c then _ else _) = _ => destruct c; [|discriminate H] end.
+  assert (G : forall a b c, exists vs', iset [perconn] a (iset [addr] b (iset [tgt] c (VStruct zs))) = VStruct vs').
+  { intros a b c. destruct (iset_struct tgt [] c zs) as [z1 E1]. rewrite E1. apply iset2_struct. }
+  injection H as <-. apply G.
+Qed.
+
+Lemma encode_hooked T f n sd vs t2 w : find_struct T n = Some sd ->
+  hook_out T sd (hook_compiled T sd) (VStruct vs) = Some (t2, w) ->
+  encode T (S f) (TNamed n) (VStruct vs) = encode T f t2 w.
+Proof.
+  intros Hfs Hout. cbn [encode]. rewrite Hfs. destruct (hook_compiled T sd) eqn:Eh; cbn [hook_out] in Hout; try discriminate Hout;
+    cbn [hook_out]; rewrite Hout; reflexivity.
+Qed.
+
+Theorem stable_full T : table_ok2 T = true -> meta_rt T -> forall fuel t v, stable_full_at T fuel t v.
+Proof.
+  intros HT HM. destruct (table_ok2_inv T HT) as [HT1 [HT2 HT3]].
+  induction fuel as [|f IH]; intros t v Hw Hty Hff fuel' v' Hd; [cbn in Hff; discriminate|].
+  destruct fuel' as [|f']; [cbn in Hd; discriminate|].
+  inversion Hw as [t0 v0 Hsh Hwf|t1 r k x Hx|t1 r es Hes|t1 r es Hes|n sd vs Hfs Hp Hfl|n sd vs t2 w Hfs Hout Hside Hlen Hmp Hw2|n sd j Hfs Hc Hj]; subst.
+  - (* leaves: the theorem of the plain fragment *)
+    unfold ty_ok in Hty. apply andb_true_iff in Hty. destruct Hty as [Hty _].
+    exact (stable T HT1 (S f) t v Hwf Hty Hff (S f') v' Hd).
+  - (* pointer *)
+    destruct (ty_ok_ptr T t1 Hty) as [Hty1 [Hpk Hph]].
+    cbn [encode] in *. destruct f as [|f0]; [cbn in Hff; discriminate|].
+    pose proof (encode_not_null_WF T HT f0 t1 x Hx Hph Hff) as Hnn.
+    cbn [decode] in Hd.
+    assert (Hd' : option_bind (decode T f' t1 (encode T (S f0) t1 x)) (fun y => Some (VRef 0 [("", y)])) = Some v').
+    { destruct (encode T (S f0) t1 x) eqn:E; try exact Hd.
+      exfalso. destruct t1; try (apply Hnn; reflexivity); cbn in Hpk; discriminate. }
+    destruct (decode T f' t1 (encode T (S f0) t1 x)) as [y|] eqn:Ey; cbn in Hd'; [|discriminate].
+    inversion Hd'; subst v'.
+    destruct (IH t1 x Hx Hty1 Hff f' y Ey) as [Henc _]. split; [exact Henc|reflexivity].
+  - (* slice *)
+    pose proof (ty_ok_elem T t1 (or_introl Hty)) as Hty1.
+    cbn [encode] in *. cbn [decode] in Hd.
+    destruct (sequence _) as [xs|] eqn:Eseq; cbn in Hd; [|discriminate]. inversion Hd; subst v'. clear Hd.
+    rewrite map_map in Eseq. apply sequence_map in Eseq.
+    apply fuel_free_arr in Hff. rewrite Forall_map in Hff.
+    cbn [encode]. split.
+    + f_equal. rewrite map_map. cbn [snd].
+      apply (list_rt_aux (WF T t1) (encode T f t1) (decode T f' t1)); try assumption.
+      intros x y Hx Hfx Hdx. destruct (IH t1 x Hx Hty1 Hfx f' y Hdx) as [Henc _]. exact Henc.
+    + intros Hne. destruct es; [discriminate|]. inversion Eseq; subst. reflexivity.
+  - (* map *)
+    pose proof (ty_ok_elem T t1 (or_intror Hty)) as Hty1.
+    cbn [encode] in *. cbn [decode] in Hd.
+    destruct (sequence _) as [es'|] eqn:Eseq; cbn in Hd; [|discriminate]. inversion Hd; subst v'. clear Hd.
+    rewrite map_map in Eseq. apply sequence_map in Eseq.
+    apply fuel_free_obj in Hff. rewrite Forall_map in Hff. cbn [snd] in Hff.
+    cbn [encode]. split.
+    + f_equal.
+      clear Hw. revert es' Eseq. induction es as [|[k x] es IHes]; intros es' Eseq; inversion Eseq as [|? y ? ? Hy Hrest]; subst; [reflexivity|].
+      inversion Hes as [|? ? Hwx Hes']; subst. inversion Hff as [|? ? Hfx Hff']; subst.
+      cbn [fst snd] in Hy.
+      destruct (decode T f' t1 (encode T f t1 x)) as [x'|] eqn:Ex; cbn in Hy; [|discriminate]. inversion Hy; subst y.
+      cbn [map fst snd]. f_equal.
+      * destruct (IH t1 x Hwx Hty1 Hfx f' x' Ex) as [Henc _]. rewrite Henc. reflexivity.
+      * apply IHes; assumption.
+    + intros Hne. destruct es; [discriminate|]. inversion Eseq; subst. reflexivity.
+  - (* plain struct *)
+    destruct (plain_hooks sd Hp) as [Hh [Hu Hvis]].
+    pose proof (plain_struct_ok T sd HT1 (find_struct_in _ _ _ Hfs) Hp) as Hok.
+    unfold struct_ok in Hok. apply andb_true_iff in Hok. destruct Hok as [Hnd Hpo].
+    pose proof (Forall2_length _ _ _ Hfl) as Hl.
+    pose proof (plain_compiled T sd Hp) as Hc.
+    assert (Hph : forall fd, In fd (s_fields sd) -> ptr_hook_ok T (f_ty fd) = true) by (apply HT3; eapply find_struct_in; eauto).
+    cbn [encode] in *. rewrite Hfs, Hc in *. cbn [decode] in Hd. rewrite Hfs in Hd. cbv zeta in Hd. rewrite Hc in Hd.
+    set (O := enc_fields (encode T f) (s_fields sd) vs) in Hd, Hff.
+    destruct (sequence _) as [vs'|] eqn:Eseq; cbn in Hd; [|discriminate]. inversion Hd; subst v'. clear Hd.
+    apply sequence_map in Eseq.
+    split; [|intros _; reflexivity].
+    f_equal.
+    pose proof (lookup_enc_fields (encode T f) (s_fields sd) vs Hvis Hnd Hl) as Hlook. fold O in Hlook.
+    assert (Hmem : forall fd x, In fd (s_fields sd) -> f_skip fd = false ->
+              lookup_member O (f_json fd) None = Some x -> fuel_free x = true).
+    { intros fd x _ _ Hx. eapply fuel_free_member; [exact Hff|exact Hx]. }
+    clear Hff Hw.
+    revert Hmem Hlook Eseq Hfl Hpo Hvis Hph. generalize O. clear O Hnd Hl.
+    generalize (s_fields sd) as fds. revert vs'.
+    induction vs as [|x vs IHvs]; intros vs' fds O Hmem Hlook Eseq Hwf Hpo Hvis Hph.
+    + inversion Hwf; subst. inversion Eseq; subst. reflexivity.
+    + inversion Hwf as [|fd ? fds' ? Hwx Hwf']; subst. inversion Eseq as [|? x' ? vs'' Hdx Hseq']; subst.
+      inversion Hlook as [|? ? ? ? Hl0 Hlook']; subst.
+      cbn in Hpo. apply andb_true_iff in Hpo. destruct Hpo as [Hpx Hpo].
+      cbn in Hvis. apply andb_true_iff in Hvis. destruct Hvis as [Hv0 Hvis].
+      assert (He : f_embed fd = false \/ f_skip fd = true).
+      { destruct (f_skip fd); [right; reflexivity|left]. cbn in Hv0. apply negb_true_iff in Hv0. exact Hv0. }
+      rewrite !(enc_fields_cons (encode T f) fd fds' _ _ He).
+      assert (IHrest : enc_fields (encode T f) fds' vs'' = enc_fields (encode T f) fds' vs).
+      { eapply IHvs; eauto. intros fd0 x0 Hin. apply Hmem. right; exact Hin. intros fd0 Hin. apply Hph. right; exact Hin. }
+      rewrite IHrest. f_equal.
+      unfold omitted in *.
+      destruct (f_skip fd) eqn:Es; [reflexivity|]. cbn [orb] in *.
+      specialize (Hl0 eq_refl). rewrite Hl0 in Hdx.
+      destruct (f_omit fd && is_empty x)%bool eqn:Eo.
+      * inversion Hdx; subst x'. apply andb_true_iff in Eo. destruct Eo as [Eom Eem]. rewrite Eom. cbn [andb].
+        pose proof (zero_val_empty T f' (f_ty fd)) as Hz.
+        destruct (f_ty fd) eqn:Et; try (rewrite Hz; reflexivity).
+        -- (* struct-typed field: a well-formed struct value is never empty *)
+           exfalso. clear - Hwx Eem. inversion Hwx as [t0 v0 Hsh0 Hwf0| | | | | |]; subst; cbn in Eem; try discriminate Eem;
+             destruct x; cbn in Hwf0, Eem; try discriminate Hwf0; try discriminate Eem; try contradiction.
+        -- exfalso. clear - Hwx Eem. inversion Hwx as [t0 v0 Hsh0 Hwf0| | | | | |]; subst; cbn in Eem; try discriminate Eem;
+             destruct x; cbn in Hwf0, Eem; try discriminate Hwf0; try discriminate Eem; try contradiction.
+      * assert (Hffx : fuel_free (encode T f (f_ty fd) x) = true).
+        { eapply (Hmem fd); [left; reflexivity|exact Es|]. rewrite Hl0. reflexivity. }
+        assert (Htyx : ty_ok T (f_ty fd) = true) by (unfold ty_ok; rewrite Hpx; cbn; apply Hph; left; reflexivity).
+        destruct (IH (f_ty fd) x Hwx Htyx Hffx f' x' Hdx) as [Henc Hemp].
+        rewrite Henc.
+        destruct (f_omit fd) eqn:Eom; cbn [andb] in *; [|reflexivity].
+        rewrite (Hemp Eo). reflexivity.
+  - (* hooked struct *)
+    pose proof (hooks_ok_at T n sd HT2 Hfs Hmp) as Hok.
+    destruct (hook_out_ty _ _ _ _ _ _ Hout) as [X [HX Ht2]].
+    assert (HXlt : X < List.length (s_fields sd)).
+    { unfold hook_ok in Hok. destruct (hook_compiled T sd) eqn:Eh; cbn in HX; try discriminate; inversion HX; subst X.
+      - destruct (hook_ok_shadow T sd sh) as [H _]; [unfold hook_ok; rewrite Eh; exact Hok|exact Eh|exact H].
+      - destruct (hook_ok_chain T sd tgt ctxs single set) as [H _]; [unfold hook_ok; rewrite Eh; exact Hok|exact Eh|exact H].
+      - destruct (hook_ok_inline T sd tgt hidden pathf inlf) as [H _]; [unfold hook_ok; rewrite Eh; exact Hok|exact Eh|exact H].
+      - destruct (hook_ok_listener T sd tgt addr addrcfg network perconn) as [H _]; [unfold hook_ok; rewrite Eh; exact Hok|exact Eh|exact H]. }
+    assert (Hty2 : ty_ok T t2 = true).
+    { subst t2. unfold ty_ok. destruct (field_ty_in sd X HXlt) as [fdx [Hin Efd]].
+      rewrite <- Efd at 2. rewrite (HT3 sd (find_struct_in _ _ _ Hfs) fdx Hin). rewrite andb_true_r.
+      destruct (hook_compiled T sd) eqn:Eh; cbn in HX; try discriminate; inversion HX; subst X.
+      - unfold hook_ok in Hok. rewrite Eh in Hok. split_andb Hok. assumption.
+      - destruct (hook_ok_chain T sd tgt ctxs single set Hok Eh) as (_ & _ & _ & _ & tn & _ & _ & _ & _ & _ & E & _). rewrite E. reflexivity.
+      - destruct (hook_ok_inline T sd tgt hidden pathf inlf Hok Eh) as (_ & _ & _ & _ & _ & tn & _ & _ & _ & _ & E & _). rewrite E. reflexivity.
+      - destruct (hook_ok_listener T sd tgt addr addrcfg network perconn Hok Eh) as (_ & _ & _ & _ & _ & _ & _ & tn & _ & _ & _ & E & _). rewrite E. reflexivity. }
+    assert (Henc0 : encode T (S f) (TNamed n) (VStruct vs) = encode T f t2 w).
+    { cbn [encode]. rewrite Hfs. destruct (hook_compiled T sd) eqn:Eh; cbn in HX; try discriminate; rewrite Hout; reflexivity. }
+    rewrite Henc0 in *.
+    assert (Hz : zero_val T (S f') (TNamed n) = VStruct (map (fun fd => zero_val T f' (f_ty fd)) (s_fields sd))) by (apply zero_struct; exact Hfs).
+    set (zs := map (fun fd => zero_val T f' (f_ty fd)) (s_fields sd)) in *.
+    assert (Hzlen : List.length zs = List.length (s_fields sd)) by (unfold zs; apply map_length).
+    cbn [decode] in Hd. rewrite Hfs in Hd. cbv zeta in Hd. rewrite Hz in Hd.
+    (* the facts about w when the target is a plain struct *)
+    assert (Hplainw : forall tn tsd, t2 = TNamed tn -> find_struct T tn = Some tsd -> plain_struct tsd = true ->
+               exists ws f0 f0', w = VStruct ws /\ List.length (s_fields tsd) = List.length ws /\ f = S f0 /\ f' = S f0').
+    { intros tn tsd E Hft Hpt. subst t2. rewrite E in *. destruct (WF_plain_inv T tn tsd w Hft Hpt Hw2) as [ws [Ews [Hwl _]]].
+      destruct f as [|f0]; [cbn in Hff; discriminate|].
+      destruct f' as [|f0'].
+      - exfalso. destruct (hook_compiled T sd); cbn in HX; try discriminate; inversion HX; subst; rewrite E in Hd; cbn in Hd; discriminate.
+      - eauto 10. }
+    destruct (hook_compiled T sd) eqn:Eh; cbn in HX; try discriminate; inversion HX; subst X; clear HX.
+    + (* shadow-field pairs *)
+      rewrite <- Ht2 in Hd.
+      destruct (decode T f' t2 (encode T f t2 w)) as [sub|] eqn:Esub; cbn in Hd; [|discriminate]. inversion Hd; subst v'. clear Hd.
+      destruct (IH t2 w Hw2 Hty2 Hff f' sub Esub) as [Hes _].
+      cbn [hook_out] in Hout. destruct (sh_out sh (VStruct vs)) as [w0|] eqn:Ew0; cbn in Hout; [|discriminate].
+      assert (w0 = w) by (inversion Hout; reflexivity). subst w0.
+      assert (Hrt : sh_out sh (sh_in sh (VStruct zs) sub) = Some sub).
+      { destruct f as [|f0]; [cbn in Hff; discriminate|]. destruct f' as [|f0']; [cbn in Esub; discriminate|].
+        eapply (shadow_roundtrip T HM sd sh vs w f0 f0' sub zs Hok Eh Hlen Hzlen Ew0 Hside).
+        intros tn tsd E Hft Hpt Hsok Hne. rewrite <- Ht2 in E.
+        destruct (Hplainw tn tsd E Hft Hpt) as (ws & g0 & g0' & Ews & Hwl & Eg & Eg'). inversion Eg; inversion Eg'; subst g0 g0'.
+        exists ws. rewrite <- E. repeat split; assumption. }
+      destruct (fold_in_struct sub (sh_pairs sh) zs) as [vs'' [Evs'' _]].
+      assert (Hv' : exists vs', sh_in sh (VStruct zs) sub = VStruct vs').
+      { rewrite sh_in_eq. destruct (iset_struct (sh_tgt sh) [] sub zs) as [zs' Ezs'].
+        rewrite Ezs'. destruct (fold_in_struct sub (sh_pairs sh) zs') as [vs' [E _]]. eauto. }
+      destruct Hv' as [vs' Ev']. rewrite Ev' in *.
+      split; [|intros _; reflexivity].
+      cbn [encode]. rewrite Hfs, Eh. cbn [hook_out]. rewrite Hrt. cbn [option_map]. rewrite <- Ht2. exact Hes.
+    + (* FilterChain *)
+      rewrite <- Ht2 in Hd.
+      destruct (decode T f' t2 (encode T f t2 w)) as [sub|] eqn:Esub; cbn in Hd; [|discriminate].
+      destruct (IH t2 w Hw2 Hty2 Hff f' sub Esub) as [Hes _].
+      cbn [hook_out] in Hout. destruct (chain_out tgt ctxs single set (VStruct vs)) as [w0|] eqn:Ew0; cbn in Hout; [|discriminate].
+      assert (w0 = w) by (inversion Hout; reflexivity). subst w0.
+      destruct (hook_ok_chain T sd tgt ctxs single set Hok Eh) as (_ & _ & _ & _ & tn & tsd & _ & _ & _ & _ & Etn & Hft & Hpt & Hsok & _).
+      destruct (Hplainw tn tsd ltac:(rewrite Ht2; exact Etn) Hft Hpt) as (ws & f0 & f0' & Ews & Hwl & Ef & Ef'). subst f f'.
+      rewrite Ht2, Etn in Hff, Esub.
+      pose proof (chain_roundtrip T sd tgt ctxs single set vs w ws tn tsd f0 f0' sub zs _ v' Hok Eh Hlen Hzlen Ew0 Hside Etn Hft Ews Hwl Hff Esub Hd) as Hrt.
+      assert (Hv' : exists vs', v' = VStruct vs') by (eapply chain_in_struct; exact Hd).
+      destruct Hv' as [vs' ->].
+      split; [|intros _; reflexivity].
+      rewrite (encode_hooked T (S f0) n sd vs' (TNamed tn) sub Hfs) by (rewrite Eh; cbn [hook_out]; rewrite Hrt; cbn [option_map]; rewrite Etn; reflexivity).
+      rewrite Ht2, Etn in Hes. rewrite Ht2, Etn. exact Hes.
+    + (* inline mode *)
+      rewrite <- Ht2 in Hd.
+      destruct (decode T f' t2 (encode T f t2 w)) as [sub|] eqn:Esub; cbn in Hd; [|discriminate].
+      destruct (IH t2 w Hw2 Hty2 Hff f' sub Esub) as [Hes _].
+      cbn [hook_out] in Hout. destruct (inline_out tgt hidden pathf inlf (VStruct vs)) as [w0|] eqn:Ew0; cbn in Hout; [|discriminate].
+      assert (w0 = w) by (inversion Hout; reflexivity). subst w0.
+      destruct (hook_ok_inline T sd tgt hidden pathf inlf Hok Eh) as (_ & _ & _ & _ & _ & tn & tsd & _ & _ & _ & Etn & Hft & Hpt & Hsok & _).
+      destruct (Hplainw tn tsd ltac:(rewrite Ht2; exact Etn) Hft Hpt) as (ws & f0 & f0' & Ews & Hwl & Ef & Ef'). subst f f'.
+      rewrite Ht2, Etn in Hff, Esub, Hw2.
+      pose proof (inline_roundtrip T sd tgt hidden pathf inlf vs w ws tn tsd f0 f0' (S f0') sub zs v' Hok Eh Hlen eq_refl Ew0 Hside Etn Hft Ews Hwl Hw2 Hff Esub Hd) as Hrt.
+      assert (Hv' : exists vs', v' = VStruct vs') by (eapply inline_in_struct; exact Hd).
+      destruct Hv' as [vs' ->].
+      split; [|intros _; reflexivity].
+      rewrite (encode_hooked T (S f0) n sd vs' (TNamed tn) sub Hfs) by (rewrite Eh; cbn [hook_out]; rewrite Hrt; cbn [option_map]; rewrite Etn; reflexivity).
+      rewrite Ht2, Etn in Hes. rewrite Ht2, Etn. exact Hes.
+    + (* Listener *)
+      rewrite <- Ht2 in Hd.
+      destruct (decode T f' t2 (encode T f t2 w)) as [sub|] eqn:Esub; cbn in Hd; [|discriminate].
+      destruct (IH t2 w Hw2 Hty2 Hff f' sub Esub) as [Hes _].
+      cbn [hook_out] in Hout. destruct (listener_out tgt addr addrcfg (VStruct vs)) as [w0|] eqn:Ew0; cbn in Hout; [|discriminate].
+      assert (w0 = w) by (inversion Hout; reflexivity). subst w0.
+      destruct (hook_ok_listener T sd tgt addr addrcfg network perconn Hok Eh) as (_ & _ & _ & _ & _ & _ & _ & tn & tsd & _ & _ & Etn & Hft & Hpt & Hsok & _).
+      destruct (Hplainw tn tsd ltac:(rewrite Ht2; exact Etn) Hft Hpt) as (ws & f0 & f0' & Ews & Hwl & Ef & Ef'). subst f f'.
+      rewrite Ht2, Etn in Hff, Esub.
+      pose proof (listener_roundtrip T sd tgt addr addrcfg network perconn vs w ws tn tsd f0 f0' sub zs v' Hok Eh Hlen Hzlen Ew0 Hside Etn Hft Ews Hwl Hff Esub Hd) as Hrt.
+      assert (Hv' : exists vs', v' = VStruct vs') by (eapply listener_in_struct; exact Hd).
+      destruct Hv' as [vs' ->].
+      split; [|intros _; reflexivity].
+      rewrite (encode_hooked T (S f0) n sd vs' (TNamed tn) sub Hfs) by (rewrite Eh; cbn [hook_out]; rewrite Hrt; cbn [option_map]; rewrite Etn; reflexivity).
+      rewrite Ht2, Etn in Hes. rewrite Ht2, Etn. exact Hes.
+  - (* a marshaler carried as JSON *)
+    assert (E : forall g, encode T (S g) (TNamed n) (VJson j) = j) by (intros g; cbn [encode]; rewrite Hfs, Hc; reflexivity).
+    rewrite E in Hd. cbn [decode] in Hd. rewrite Hfs in Hd. cbv zeta in Hd. rewrite Hc in Hd.
+    assert (v' = VJson j) by (destruct j; congruence). subst v'. rewrite E. split; reflexivity.
 Qed.
